@@ -156,105 +156,119 @@ def one_run(case, res, sim):
             else:
                 raise HarnessError(f"unknown context {kind}")
             ctxs.append((kind, c))
-        ex = case.get("exit", {"mode": "normal"})
-        body = case.get("body", [])
-        left_by = "normal"
-        windows = []
-        try:
-            with contextlib.ExitStack() as stack:
-                last_entered = None
-                for kind, c in ctxs:
-                    if c == "CbreakTermmode":
-                        if last_entered is None or not isinstance(last_entered, Termmode):
+        reusable = all(k in ("Input", "Cbreak", "Nonblocking", "Termmode") for k in kinds)
+        cycles = case.get("cycles", 1) if reusable else 1
+        for cycle in range(cycles):
+            if cycle:
+                # the same context objects are used again; the tty is in a different state than the first time
+                res.label("same_context_objects_reused")
+                apply_initial(pty.slave, {"lflag": {"ECHO": cycle % 2 == 0, "ICANON": cycle % 2 == 1}, "iflag": {"ICRNL": cycle % 2 == 0},
+                                          "vmin": cycle % 2, "vtime": 3 * (cycle % 2)})
+                before = {"termios": termios.tcgetattr(pty.slave), "fl": fcntl.fcntl(pty.slave, fcntl.F_GETFL)}
+                main_before = [list(r) for r in term.main]
+                tape_before = [list(r) for r in term.tape()]
+                entry_tape_row = len(term.scrollback) + term.r
+            ex = case.get("exit", {"mode": "normal"})
+            body = case.get("body", [])
+            left_by = "normal"
+            windows = []
+            try:
+                with contextlib.ExitStack() as stack:
+                    last_entered = None
+                    for kind, c in ctxs:
+                        if c == "CbreakTermmode":
+                            if last_entered is None or not isinstance(last_entered, Termmode):
+                                continue
+                            stack.enter_context(last_entered)
                             continue
-                        stack.enter_context(last_entered)
-                        continue
-                    r = stack.enter_context(c)
-                    last_entered = r
-                    if kind in ("Fullscreen", "CursorAware"):
-                        windows.append((kind, c))
-                for k, op in enumerate(body):
-                    if ex["mode"] == "raise" and ex.get("after", 0) == k:
-                        raise Boom()
-                    if op["op"] == "render":
-                        for kind, win in windows:
-                            rows = ["r%d%s" % (i, "x" * (op.get("n", 2) % 4)) for i in range(op.get("n", 2))]
-                            win.render_to_terminal(rows, (0, 0))
-                    elif op["op"] == "request":
-                        for inp in inputs:
-                            if op.get("data"):
-                                os.write(pty.master, bytes.fromhex(op["data"])[:200])
-                            fl_pre = fcntl.fcntl(pty.slave, fcntl.F_GETFL)
-                            sigint_safe = init.get("handler", "default") != "dfl" or opts.get("sigint_event", False)
-                            if ex["mode"] == "sigint" and ex.get("after", 0) == k and on_main and sigint_safe:
-                                def fire():
-                                    signal.raise_signal(signal.SIGINT)
-                                    for _ in range(3):
-                                        pass
-                                with LineInjector(ex.get("line", 5), fire):
+                        r = stack.enter_context(c)
+                        last_entered = r
+                        if kind in ("Fullscreen", "CursorAware"):
+                            windows.append((kind, c))
+                    for k, op in enumerate(body):
+                        if ex["mode"] == "raise" and ex.get("after", 0) == k:
+                            raise Boom()
+                        if op["op"] == "render":
+                            for kind, win in windows:
+                                rows = ["r%d%s" % (i, "x" * (op.get("n", 2) % 4)) for i in range(op.get("n", 2))]
+                                win.render_to_terminal(rows, (0, 0))
+                        elif op["op"] == "request":
+                            for inp in inputs:
+                                if op.get("data"):
+                                    os.write(pty.master, bytes.fromhex(op["data"])[:3000])
+                                fl_pre = fcntl.fcntl(pty.slave, fcntl.F_GETFL)
+                                sigint_safe = init.get("handler", "default") != "dfl" or opts.get("sigint_event", False)
+                                if ex["mode"] == "sigint" and ex.get("after", 0) == k and on_main and sigint_safe:
+                                    def fire():
+                                        signal.raise_signal(signal.SIGINT)
+                                        for _ in range(3):
+                                            pass
+                                    with LineInjector(ex.get("line", 5), fire):
+                                        inp.send(op.get("timeout", 0))
+                                else:
                                     inp.send(op.get("timeout", 0))
-                            else:
-                                inp.send(op.get("timeout", 0))
-                            fl_now = fcntl.fcntl(pty.slave, fcntl.F_GETFL)
-                            if fl_now != fl_pre:
-                                res.viol("stream_flags_changed_by_request", before=fl_pre, now=fl_now, case=case)
-                                return False
-                    elif op["op"] == "trigger":
-                        for inp in inputs:
-                            cb = inp.event_trigger(lambda **kw: "ev")
-                            cb()
-                    elif op["op"] == "threadsafe_trigger":
-                        for inp in inputs:
-                            cb = inp.threadsafe_event_trigger(lambda **kw: "tev")
-                            callbacks.append((inp, cb))
-                            cb()
-                if ex["mode"] == "raise" and ex.get("after", 0) >= len(body):
-                    raise Boom()
-        except Boom:
-            left_by = "exception"
-        except KeyboardInterrupt:
-            left_by = "keyboard_interrupt"
-        except WouldBlockForever:
-            left_by = "exception"
-        except HarnessError:
-            raise
-        except Exception as e:  # noqa
-            res.viol("context_or_body_raised", error=exc_str(e), where=tb_tail(e), case=case)
-            return False
-        res.label("left_by_" + left_by)
-        if left_by != "normal":
-            res.nontrivial = True
-        # ---- after leaving: everything must be back
-        ctx = dict(case=case, left_by=left_by)
-        after_t = termios.tcgetattr(pty.slave)
-        if after_t != before["termios"]:
-            diff = [i for i in range(7) if after_t[i] != before["termios"][i]]
-            res.viol("tty_attributes_not_restored", fields=diff, **ctx)
-            return False
-        fl = fcntl.fcntl(pty.slave, fcntl.F_GETFL)
-        if fl != before["fl"]:
-            res.viol("file_status_flags_not_restored", before=before["fl"], after=fl, **ctx)
-            return False
-        if on_main:
-            if signal.getsignal(signal.SIGINT) is not pre_handler:
-                res.viol("sigint_handler_not_restored", now=repr(signal.getsignal(signal.SIGINT))[:80], **ctx)
+                                fl_now = fcntl.fcntl(pty.slave, fcntl.F_GETFL)
+                                if fl_now != fl_pre:
+                                    res.viol("stream_flags_changed_by_request", before=fl_pre, now=fl_now, case=case)
+                                    return False
+                        elif op["op"] == "trigger":
+                            for inp in inputs:
+                                cb = inp.event_trigger(lambda **kw: "ev")
+                                cb()
+                        elif op["op"] == "threadsafe_trigger":
+                            for inp in inputs:
+                                cb = inp.threadsafe_event_trigger(lambda **kw: "tev")
+                                callbacks.append((inp, cb))
+                                cb()
+                    if ex["mode"] == "raise" and ex.get("after", 0) >= len(body):
+                        raise Boom()
+            except Boom:
+                left_by = "exception"
+            except KeyboardInterrupt:
+                left_by = "keyboard_interrupt"
+            except WouldBlockForever:
+                left_by = "exception"
+            except HarnessError:
+                raise
+            except Exception as e:  # noqa
+                res.viol("context_or_body_raised", error=exc_str(e), where=tb_tail(e), case=case)
                 return False
-            cur = signal.set_wakeup_fd(-1)
-            if cur != pre_wakeup:
-                res.viol("wakeup_fd_not_restored", now=cur, expected="pre-existing pipe" if pre_wakeup != -1 else -1, **ctx)
+            res.label("left_by_" + left_by)
+            if left_by != "normal":
+                res.nontrivial = True
+            # ---- after leaving: everything must be back
+            ctx = dict(case=case, left_by=left_by)
+            after_t = termios.tcgetattr(pty.slave)
+            if after_t != before["termios"]:
+                diff = [i for i in range(7) if after_t[i] != before["termios"][i]]
+                res.viol("tty_attributes_not_restored", fields=diff, **ctx)
                 return False
-        if not term.cursor_visible:
-            res.viol("cursor_left_hidden", **ctx)
-            return False
-        if term.in_alt:
-            res.viol("alternate_screen_not_left", **ctx)
-            return False
-        if "Fullscreen" in kinds and "CursorAware" not in kinds and term.main != main_before:
-            res.viol("main_screen_content_changed", **ctx)
-            return False
-        if "CursorAware" in kinds and term.tape()[:entry_tape_row] != tape_before[:entry_tape_row]:
-            res.viol("content_above_entry_row_changed", **ctx)
-            return False
+            fl = fcntl.fcntl(pty.slave, fcntl.F_GETFL)
+            if fl != before["fl"]:
+                res.viol("file_status_flags_not_restored", before=before["fl"], after=fl, **ctx)
+                return False
+            if on_main:
+                if signal.getsignal(signal.SIGINT) is not pre_handler:
+                    res.viol("sigint_handler_not_restored", now=repr(signal.getsignal(signal.SIGINT))[:80], **ctx)
+                    return False
+                cur = signal.set_wakeup_fd(-1)
+                signal.set_wakeup_fd(pre_wakeup, warn_on_full_buffer=False)  # reading it is destructive: put it back
+                if cur != pre_wakeup:
+                    res.viol("wakeup_fd_not_restored", now=cur, expected="pre-existing pipe" if pre_wakeup != -1 else -1, **ctx)
+                    return False
+            if not term.cursor_visible:
+                res.viol("cursor_left_hidden", **ctx)
+                return False
+            if term.in_alt:
+                res.viol("alternate_screen_not_left", **ctx)
+                return False
+            if "Fullscreen" in kinds and "CursorAware" not in kinds and term.main != main_before:
+                res.viol("main_screen_content_changed", **ctx)
+                return False
+            if "CursorAware" in kinds and term.tape()[:entry_tape_row] != tape_before[:entry_tape_row]:
+                res.viol("content_above_entry_row_changed", **ctx)
+                return False
+
         return True
     finally:
         if threading.current_thread() is threading.main_thread():
@@ -343,7 +357,7 @@ def strategy():
     )
     op = st.one_of(
         st.fixed_dictionaries({"op": st.just("render"), "n": st.integers(0, 6)}),
-        st.fixed_dictionaries({"op": st.just("request"), "timeout": st.sampled_from([0, 0, 0.01, 0.5]), "data": st.sampled_from([None, "61", "1b5b41", "c3a9", "61" * 30])}),
+        st.fixed_dictionaries({"op": st.just("request"), "timeout": st.sampled_from([0, 0, 0.01, 0.5]), "data": st.sampled_from([None, "61", "1b5b41", "c3a9", "61" * 30, "61" * 1024, "61" * 1500, "e28882" * 400, "61" * 2500])}),
         st.fixed_dictionaries({"op": st.just("trigger")}),
         st.fixed_dictionaries({"op": st.just("threadsafe_trigger")}),
     )
@@ -363,6 +377,7 @@ def strategy():
             "exit": exit_,
             "thread": st.sampled_from([False, False, False, True]),
             "repeat": st.sampled_from([1, 1, 1, 2, 25]),
+            "cycles": st.sampled_from([1, 1, 2, 3]),
         }
     )
 
